@@ -131,6 +131,12 @@ func (m *Module) runEventHook(hook *eventHook, event string, data interface{}) {
 	err := hook.hookingModule.RunWorker(
 		fmt.Sprintf("event hook %s/%s -> %s/%s", m.Name, event, hook.hookingModule.Name, hook.description),
 		func(ctx context.Context) error {
+			// The hooking module may have been stopped since it was checked
+			// above. The hook is accounted for as a worker by now, so a stop
+			// waits for it: check again and do not run for a stopped module.
+			if hook.hookingModule.Status() != StatusOnline {
+				return nil
+			}
 			return hook.hookFn(ctx, data)
 		},
 	)
